@@ -160,7 +160,7 @@ func (c *cfg) block(be *backend, fr, frr *failer) string {
 		b.WriteString(renderRule("header_downstream", r))
 	}
 	if c.Retry != "" {
-		b.WriteString("  policy round_robin\n  try_duration 20s\n  try_interval 1ms\n")
+		b.WriteString("  policy round_robin\n  try_duration 4s\n  try_interval 1ms\n")
 	}
 	if c.Extra != "" {
 		fmt.Fprintf(&b, "  %s\n", c.Extra)
@@ -814,6 +814,12 @@ func run(c *lib.Ctx) {
 			cl := &rawClient{addr: front, local: net.ParseIP(fmt.Sprintf("127.0.0.%d", 10+w)), timeout: 120 * time.Second}
 			defer cl.close()
 			for i := w; i < total; i += workers {
+				if c.Violations() > 150 {
+					// the relay is broken in a way that shows up everywhere (and may make
+					// every affected case wait out its retry budget): enough witnesses
+					c.Count("cases_skipped_after_many_violations", 1)
+					continue
+				}
 				k := genCase(lib.NewRng(seeds[i]), i, cfgs, workers, port)
 				k.Req.body = lib.DetBody(k.Req.BodyTag, k.Req.BodyLen)
 				k.Reply.body = lib.DetBody(k.Reply.BodyTag, k.Reply.BodyLen)
